@@ -10,6 +10,9 @@ Differences to `Oracle.checkRewrite`:
   whose exact subterm values leave the range in which doubles are dense (|v| < 1e-290 or > 1e290)
   are skipped.
 * the division clause follows the theorems of `Rooc.Props.C10`:
+  - `definedness-created`        : outside the collapse region, finite literals, rounding-free folding: the input
+                                   is undefined at an assignment at which the output is defined (converse of
+                                   `simplify_eval_eq` / `flatten_eval_eq`);
   - `division-erased`            : hypothesis of `div_preserved_nonconstant` holds (`protDiv`:
                                    some divisor does not simplify to a non-zero literal),
                                    conclusion fails on the implementation's output;
@@ -143,9 +146,23 @@ def checkRewrite (e e' : Exp (Ext Rat)) : Sexp :=
   -- assignment) and `simplify_eval_eq` (no and/or node collapses to a non-logic operand — the very
   -- predicate `Exp.collapsesNonbinary` of the theorem, domain-independent instance)
   let noCollapse := !(Exp.collapsesNonbinary (fun _ => false) e)
+  -- converse direction (`simplify_eval_eq`, `flatten_eval_eq`): outside the collapse region and with finite
+  -- literals the rewrite creates no definedness.  Only judged when the folding was rounding-free (every literal
+  -- of the output is an exact subterm value of the input, or 0/1), so that a divisor that is exactly zero is not
+  -- mistaken for one that rounds to a non-zero double.
+  let litsOf : Exp (Ext Rat) → List Rat := fun x => (subterms x).filterMap fun t =>
+    match t with | .num (.fin c) => some c | _ => none
+  let roundingFree := (litsOf e').all fun c => c == 0 || c == 1 || allVals.contains c || (litsOf e).contains c
+  let created (a : List (String × Rat)) : Bool :=
+    (eval (lookup a) e).isNone && (eval (lookup a) e').isSome
   match asg.find? (fun a => (noCollapse || logicOperands01 (lookup a) e) && bad a) with
   | some a => report "value" a
   | none =>
+    if noCollapse && !(hasNonFinite e) && !(hasNonFinite e') && roundingFree && asg.any created then
+      (match asg.find? created with
+       | some a => report "definedness-created" a
+       | none => Sexp.app "ok" [.atom "unreachable"])
+    else
     if protDiv e && !(hasDivByBad e') && !(hasNonFinite e) then Sexp.app "violation" [.atom "division-erased"]
     else match asg.find? bad with
     | some a => report "value-nonbinary-logic-operand" a
